@@ -3,12 +3,35 @@
 package shell_operator
 
 import (
+	"github.com/flant/shell-operator/pkg/hook/types"
 	"github.com/flant/shell-operator/pkg/task"
 	"github.com/flant/shell-operator/pkg/task/queue"
+	"github.com/flant/shell-operator/pkg/webhook/conversion"
 )
 
 // VerifCombineBindingContextForHook exposes the unexported combineBindingContextForHook
 // to the verification harness (build tag verif only).
 func (op *ShellOperator) VerifCombineBindingContextForHook(tqs *queue.TaskQueueSet, q *queue.TaskQueue, t task.Task, stopCombineFn func(tsk task.Task) bool) *CombineResult {
 	return op.combineBindingContextForHook(tqs, q, t, stopCombineFn)
+}
+
+// VerifC07InitConversion does, on an assembled operator (queues may be running), what
+// initConversionWebhookManager does apart from certificates and the listener: the real
+// op.conversionEventHandler becomes the manager's event handler, EnableConversionBindings() for
+// every hook with kubernetesCustomResourceConversion bindings. The returned handler is the real
+// conversion.WebhookHandler (chi router) of that manager; nil when no hook has such a binding.
+func (op *ShellOperator) VerifC07InitConversion() *conversion.WebhookHandler {
+	hookNames, _ := op.HookManager.GetHooksInOrder(types.KubernetesConversion)
+	if len(hookNames) == 0 {
+		return nil
+	}
+	op.ConversionWebhookManager.EventHandlerFn = op.conversionEventHandler
+	for _, hookName := range hookNames {
+		h := op.HookManager.GetHook(hookName)
+		h.HookController.EnableConversionBindings()
+	}
+	handler := conversion.NewWebhookHandler()
+	handler.Manager = op.ConversionWebhookManager
+	op.ConversionWebhookManager.Handler = handler
+	return handler
 }
